@@ -188,11 +188,11 @@ func init() {
 func init() {
 	Properties["C16"] = PropSpec{
 		Rules: []Rule{Chain, EnumConvert, Keywords("ParamValidator", simpleKeywords, "param_ctor_calls"), Keywords("HeaderValidator", simpleKeywords, "header_ctor_calls"), Keywords("itemsValidator", simpleKeywords, "items_ctor_calls"), KeywordGuard,
-			Narrow, Orderings,
+			Narrow, Orderings, OrderingsTyped,
 			PanicInventory([]string{"NewParamValidator", "NewHeaderValidator", "(*ParamValidator).Validate", "(*HeaderValidator).Validate"}, []DynEntry{
 				{Func: "(*ParamValidator).Validate", DataArg: 1}, {Func: "(*HeaderValidator).Validate", DataArg: 1}, {Func: "(*itemsValidator).Validate", DataArg: 2},
 			}, goTypedDomain, "typed Go values: nil, bool, string and named strings, every integer and float width, json.Number, slices", "helpers")},
-		Explanation: "Structural necessary conditions of the simple-schema semantics: CHAIN — Param/Header/items validators hold the same ordered groups (type, string, format, number, slice, enum), run a group only on the true edge of its own Applies, merge every non-nil group result, return at once for a nil value, and basicSliceValidator validates element i with a fresh items validator built from its Items; KEYWORDS — each of the 15 simple-schema constraints of the parameter/header/items definition reaches a sub-validator field that is read while validating; APPLIES-SOURCE — every definition type that can arrive as the source of Applies at a dispatcher is handled by the Applies of every group it holds (a missing case silently disables the group, e.g. for items of items), and Applies decides on the validator's own keyword, consulting the source's only as a fallback when its own is empty; KEYWORD-GUARD; ENUM-CONVERT; NARROW (shared numeric path, see C13); panic-freedom for typed Go values via C06/C07's D-DYN.",
+		Explanation: "Structural necessary conditions of the simple-schema semantics: CHAIN — Param/Header/items validators hold the same ordered groups (type, string, format, number, slice, enum), run a group only on the true edge of its own Applies, merge every non-nil group result, return at once for a nil value, and basicSliceValidator validates element i with a fresh items validator built from its Items; KEYWORDS — each of the 15 simple-schema constraints of the parameter/header/items definition reaches a sub-validator field that is read while validating; APPLIES-SOURCE — every definition type that can arrive as the source of Applies at a dispatcher is handled by the Applies of every group it holds (a missing case silently disables the group, e.g. for items of items), and Applies decides on the validator's own keyword, consulting the source's only as a fallback when its own is empty; KEYWORD-GUARD; ENUM-CONVERT; NARROW and ORDERINGS incl. the typed facades on the grid of carriers × values × constraints × exclusive (shared numeric path, see C13: a typed zero against minimum 0 exclusive must be rejected whatever its Go kind); panic-freedom for typed Go values via C06/C07's D-DYN.",
 		NotDecided:  "Per-keyword predicates; the type-inference table of schemaInfoForType; the meaning of formats.",
 		Assumptions: []string{trustDeps},
 	}
